@@ -250,7 +250,9 @@ class Verdict:
         path.write_text(json.dumps({"property": self.prop, "clause": clause, "site": site, "what": what,
                                     "case": case}, indent=1, default=str))
         if len(self.violations) < 20:
-            print(f"VIOLATION property={self.prop} replay={path} clause={clause} {what}".rstrip(), flush=True)
+            # the interface line exactly as specified, details on a line of their own
+            print(f"VIOLATION property={self.prop} replay={path}", flush=True)
+            print(f"  detail: clause={clause} {what}".rstrip(), flush=True)
         self.violations.append({"clause": clause, "site": site, "replay": str(path)})
 
     def finish(self, level: str = "model_checking") -> int:
